@@ -120,6 +120,7 @@ type observation struct {
 	entriesAfter int64
 	writesAfter  int64
 	lateEntry    time.Duration // latest body entry relative to the start of Do
+	lastExit     time.Duration // latest body exit relative to the start of Do
 	leak         error
 	resFailed    bool
 	entries      int64
@@ -128,7 +129,7 @@ type observation struct {
 func execute(c termCase, dir string) (observation, error) {
 	var obs observation
 	var inFlight, entries atomic.Int64
-	var latest atomic.Int64
+	var latest, lastExit atomic.Int64
 	release := make(chan struct{})
 	var releaseOnce sync.Once
 	defer releaseOnce.Do(func() { close(release) })
@@ -152,7 +153,16 @@ func execute(c termCase, dir string) (observation, error) {
 		}
 		return func(it *f1testing.T) {
 			inFlight.Add(1)
-			defer inFlight.Add(-1)
+			defer func() {
+				now := int64(time.Since(start))
+				for {
+					cur := lastExit.Load()
+					if now <= cur || lastExit.CompareAndSwap(cur, now) {
+						break
+					}
+				}
+				inFlight.Add(-1)
+			}()
 			entries.Add(1)
 			since := int64(time.Since(start))
 			for {
@@ -231,6 +241,7 @@ func execute(c termCase, dir string) (observation, error) {
 		obs.leak = goleak.Find(leakOpt)
 	}
 	obs.lateEntry = time.Duration(latest.Load())
+	obs.lastExit = time.Duration(lastExit.Load())
 	releaseOnce.Do(func() { close(release) })
 	return obs, nil
 }
@@ -269,6 +280,14 @@ func judge(c termCase, obs observation) string {
 	case "limit":
 		if uint64(obs.entries) > c.Shape.MaxIterations {
 			return fmt.Sprintf("%d iterations ran with max-iterations %d", obs.entries, c.Shape.MaxIterations)
+		}
+		// once the limit has stopped the triggering and the last iteration has finished there is nothing
+		// left to wait for: the other stop conditions are >= 5 s away, the margin is 2 s
+		if c.Blocking != "blocked" && uint64(obs.entries) == c.Shape.MaxIterations {
+			if idle := obs.elapsed - obs.lastExit; idle > lateMargin {
+				return fmt.Sprintf("the max-iterations limit %d was reached and the last iteration finished %s after the run began, but Do only returned after %s (%s later; max-duration %s, trigger's own duration %s)",
+					c.Shape.MaxIterations, obs.lastExit.Round(time.Millisecond), obs.elapsed.Round(time.Millisecond), idle.Round(time.Millisecond), c.Shape.MaxDuration, c.Shape.OwnDuration)
+			}
 		}
 	}
 	return ""
